@@ -12,6 +12,10 @@ use toml_edit::{Array, ArrayOfTables, InlineTable, Item, Key, Table, TableLike, 
 pub struct C16;
 
 const KEYS: [&str; 4] = ["a", "b", "c", "d"];
+const BIG_KEYS: [&str; 40] = [
+    "k00", "k01", "k02", "k03", "k04", "k05", "k06", "k07", "k08", "k09", "k10", "k11", "k12", "k13", "k14", "k15", "k16", "k17", "k18", "k19", "k20", "k21", "k22", "k23", "k24", "k25", "k26", "k27", "k28", "k29", "k30", "k31", "k32", "k33",
+    "k34", "k35", "k36", "k37", "k38", "k39",
+];
 
 #[derive(Clone, Debug, PartialEq)]
 pub enum MV {
@@ -46,6 +50,11 @@ enum Op {
     Extend(Vec<(String, i64)>),
     IterMutAdd(i64),
     HasKeyObject(String),
+    /// the same two through the `Item` that holds the table (`item["k"]`), not the table's own IndexMut
+    VivifyReadViaItem(String),
+    IndexAssignViaItem(String, MV),
+    /// stable sort by a coarse function of the value: entries that compare equal keep their order
+    SortByValueMod(i64),
 }
 
 #[derive(Debug, PartialEq, Clone)]
@@ -82,12 +91,13 @@ impl OrdMap {
     fn put(&mut self, k: &str, v: MV) -> Option<MV> {
         let old = match self.pos(k) {
             Some(i) => {
-                let old = std::mem::replace(&mut self.e[i].1, v);
-                if old == MV::Hidden {
-                    self.amb.insert(k.to_string());
+                if self.e[i].1 == MV::Hidden {
+                    // a placeholder is not an entry: the key is new and goes to the end
+                    self.e.remove(i);
+                    self.e.push((k.to_string(), v));
                     None
                 } else {
-                    Some(old)
+                    Some(std::mem::replace(&mut self.e[i].1, v))
                 }
             }
             None => {
@@ -116,9 +126,9 @@ impl OrdMap {
 
     fn apply(&mut self, op: &Op, inline: bool) -> Ret {
         match op {
-            Op::Insert(k, v) | Op::InsertFormatted(k, v) | Op::IndexAssign(k, v) => {
+            Op::Insert(k, v) | Op::InsertFormatted(k, v) | Op::IndexAssign(k, v) | Op::IndexAssignViaItem(k, v) => {
                 let old = self.put(k, v.clone());
-                if matches!(op, Op::IndexAssign(..)) {
+                if matches!(op, Op::IndexAssign(..) | Op::IndexAssignViaItem(..)) {
                     Ret::Unit
                 } else {
                     Ret::Opt(old)
@@ -186,10 +196,14 @@ impl OrdMap {
                 self.amb.clear();
                 Ret::Unit
             }
-            Op::VivifyRead(k) => {
+            Op::VivifyRead(k) | Op::VivifyReadViaItem(k) => {
                 if self.pos(k).is_none() {
                     self.e.push((k.clone(), MV::Hidden));
                 }
+                Ret::Unit
+            }
+            Op::SortByValueMod(m) => {
+                self.e.sort_by_key(|(_, v)| coarse(v, *m));
                 Ret::Unit
             }
             Op::NestedAssign(k, k2, n) => {
@@ -248,6 +262,14 @@ trait Pipe: Sized {
 impl<T> Pipe for T {}
 
 // ------------------------------------------------------------------ conversions
+
+/// the sort key of `SortByValueMod`
+fn coarse(v: &MV, m: i64) -> i64 {
+    match v {
+        MV::Int(i) => i.rem_euclid(m),
+        _ => 0,
+    }
+}
 
 fn mv_to_item(v: &MV) -> Item {
     match v {
@@ -551,6 +573,27 @@ fn apply_table(t: &mut Table, op: &Op) -> Ret {
             t[k.as_str()] = mv_to_item(v);
             Ret::Unit
         }
+        Op::VivifyReadViaItem(k) => {
+            let mut item = Item::Table(std::mem::take(t));
+            let _ = item[k.as_str()].as_table_mut();
+            if let Item::Table(x) = item {
+                *t = x;
+            }
+            Ret::Unit
+        }
+        Op::IndexAssignViaItem(k, v) => {
+            let mut item = Item::Table(std::mem::take(t));
+            item[k.as_str()] = mv_to_item(v);
+            if let Item::Table(x) = item {
+                *t = x;
+            }
+            Ret::Unit
+        }
+        Op::SortByValueMod(m) => {
+            let m = *m;
+            t.sort_values_by(|_, a, _, b| coarse(&item_to_mv(a), m).cmp(&coarse(&item_to_mv(b), m)));
+            Ret::Unit
+        }
         Op::NestedAssign(k, k2, n) => {
             let ok = matches!(t.get(k).map(item_to_mv), None | Some(MV::Inl(_))) && !matches!(t.get(k), Some(Item::Table(_)));
             if ok {
@@ -645,7 +688,12 @@ fn apply_inline(t: &mut InlineTable, op: &Op) -> Ret {
             }
             Ret::Unit
         }
-        Op::NestedAssign(..) => Ret::Skipped,
+        Op::NestedAssign(..) | Op::VivifyReadViaItem(..) | Op::IndexAssignViaItem(..) => Ret::Skipped,
+        Op::SortByValueMod(m) => {
+            let m = *m;
+            t.sort_values_by(|_, a, _, b| coarse(&value_to_mv(a), m).cmp(&coarse(&value_to_mv(b), m)));
+            Ret::Unit
+        }
         Op::Extend(kvs) => {
             t.extend(kvs.iter().map(|(k, n)| (k.as_str(), Value::from(*n))));
             Ret::Unit
@@ -792,8 +840,8 @@ fn apply_map(m: &mut toml::map::Map<String, toml::Value>, op: &Op) -> Ret {
 
 // ------------------------------------------------------------------ history generation
 
-fn gen_op(rng: &mut Rng, counter: &mut i64, allow_tables: bool) -> Op {
-    let k = |rng: &mut Rng| rng.pick(&KEYS).to_string();
+fn gen_op(rng: &mut Rng, counter: &mut i64, allow_tables: bool, keys: &[&str]) -> Op {
+    let k = |rng: &mut Rng| rng.pick(keys).to_string();
     let mut v = |rng: &mut Rng| -> MV {
         *counter += 1;
         if allow_tables && rng.chance(1, 8) {
@@ -806,7 +854,10 @@ fn gen_op(rng: &mut Rng, counter: &mut i64, allow_tables: bool) -> Op {
             MV::Int(*counter)
         }
     };
-    match rng.below(24) {
+    match rng.below(27) {
+        24 => Op::VivifyReadViaItem(k(rng)),
+        25 => Op::IndexAssignViaItem(k(rng), v(rng)),
+        26 => Op::SortByValueMod(2 + rng.below(3) as i64),
         0 | 1 | 2 => Op::Insert(k(rng), v(rng)),
         3 => Op::InsertFormatted(k(rng), v(rng)),
         4 | 5 => Op::Remove(k(rng)),
@@ -884,6 +935,9 @@ fn op_name(op: &Op) -> &'static str {
         Op::Extend(..) => "extend",
         Op::IterMutAdd(..) => "iter_mut",
         Op::HasKeyObject(..) => "key",
+        Op::VivifyReadViaItem(..) => "Item index_mut(read)",
+        Op::IndexAssignViaItem(..) => "Item index_mut(assign)",
+        Op::SortByValueMod(..) => "sort_values_by(ties)",
     }
 }
 
@@ -898,10 +952,14 @@ enum Kind {
 
 impl C16 {
     fn run_keyed(&mut self, ctx: &mut Ctx, rng: &mut Rng, kind: Kind) {
-        let n = 1 + rng.below(60);
+        // mostly four keys, so that collisions are frequent; sometimes forty, so that containers
+        // grow past the sizes below which sorting happens to be stable
+        let big = rng.chance(1, 6);
+        let n = if big { 40 + rng.below(140) } else { 1 + rng.below(60) };
         let mut counter = 0i64;
         let allow_tables = matches!(kind, Kind::Table | Kind::DynTable);
-        let ops: Vec<Op> = (0..n).map(|_| gen_op(rng, &mut counter, allow_tables)).collect();
+        let keys: &[&str] = if big { &BIG_KEYS } else { &KEYS };
+        let ops: Vec<Op> = (0..n).map(|_| gen_op(rng, &mut counter, allow_tables, keys)).collect();
         let label = format!("{kind:?}");
         ctx.set_input(&format!("{label}: {ops:?}"));
         ctx.nontrivial(hash_bytes(format!("{label}{ops:?}").as_bytes()));
